@@ -9,10 +9,10 @@ CFG = {'assumptions': ['monotone fragment (generator emits inserts, lattice sets
               'command',
  'model_targets': ['Egg/Rules.vo'],
  'proof_targets': ['Props/C03.vo'],
- 'theorem_backed': 'delta decomposition: a match is fired by the semi-naive variants iff it is not all-old, '
+ 'theorem_backed': 'history theorem: with the frontier run_rules_impl uses now (regenerated: the rule\'s own last_run_at, advanced to next_ts) every match fires exactly once over any history of batches / rulesets; delta decomposition: a match is fired by the semi-naive variants iff it is not all-old, '
                    'and then by exactly one variant; old = not new for the emitted constraints; a never-run '
                    "rule sees everything; rebuild rules' sole focus uses the same constraint",
- 'tier_a': ['UFSeq', 'MergeArms', 'BridgeFns', 'Facts.semi_constraints'],
+ 'tier_a': ['UFSeq', 'MergeArms', 'BridgeFns', 'Facts.semi_constraints', 'Facts.semi_frontier'],
  'trusted': ['translator /verif/translator: gen/SourceFacts.v records the timestamp constraints '
              'add_rules_from_cached emits (focus GeConst, earlier atoms LtConst over the prefix 0..focus); '
              'the delta-decomposition theorem is stated over them',
